@@ -700,6 +700,25 @@ example : (∀ g, g ∈ [Gate.H 0, Gate.CNOT 0 1, Gate.P 1] → g.WF bellPlusTab
   · show 0 < 2 ∧ 1 < 2 ∧ 0 ≠ 1; decide
   · show 1 < 2; decide
 
+/-- **Infidelity of a branched mixed stabilizer state against a pure target** (`graphiq.metrics.Infidelity.evaluate`, every n,
+    every finite mixture): the fidelity it forms, `Σ_i p_i · fidelity(T_t, T_i)`, is the overlap `tr(ρ_t · Σ_i p_i ρ_i)` of the
+    target with the mixed density matrix (entries of the list: weight `p_i`, tableau `T_i`, and the value `r_i` reported by
+    `inner_product(T_t, T_i)`). -/
+theorem mixture_fidelity_is_state_overlap (a : Tab) (ga : (STab.ofTab a).Good) (l : List (ℂ × Tab × Option Nat))
+    (h : ∀ x, x ∈ l → (STab.ofTab x.2.1).Good ∧ STab.innerProduct a x.2.1 = .ok x.2.2) :
+    Matrix.trace (Hilbert.rho a.n (STab.ofTab a) * (l.map fun x => x.1 • Hilbert.rho a.n (STab.ofTab x.2.1)).sum)
+      = (l.map fun x => x.1 * Hilbert.ipVal x.2.2).sum :=
+  Hilbert.mixture_trace a ga l h
+
+/-- the hypothesis is met by the mixture {¼: Φ⁻, ¾: |00⟩} against the target Φ⁺ -/
+example : ∀ x, x ∈ [((1 / 4 : ℂ), bellMinusTab, (none : Option Nat)), ((3 / 4 : ℂ), ket00Tab, some 1)] →
+    (STab.ofTab x.2.1).Good ∧ STab.innerProduct bellPlusTab x.2.1 = .ok x.2.2 := by
+  intro x hx
+  simp only [List.mem_cons, List.mem_nil_iff, or_false] at hx
+  rcases hx with rfl | rfl
+  · exact ⟨good_of_check _ (by decide), ok_of_check _ _ (by decide +kernel)⟩
+  · exact ⟨good_of_check _ (by decide), ok_of_check _ _ (by decide +kernel)⟩
+
 /-- the witness of the repaired defect D42 (`C11.d42`: −XIYXI, −IXXZZ, IIZZX, −ZIIZI, IZZZI) as a Clifford tableau
     (the destabilizer half is not read by `inner_product` on its first argument) -/
 def d42Tab : Tab := Tab.ofRows 5 #[PRow.one, PRow.one, PRow.one, PRow.one, PRow.one,
